@@ -17,7 +17,7 @@ from harness.props import xpath_common as X
 MANIFEST = dict(
     category="proof",
     technique="Lean 4 theorems over a hand-written model of the xpath engine + differential correspondence with the implementation",
-    text="Lean (model of n0dict._find with the fix patches C06-a, C06-c, C06-b and C06-e applied), for the list of dict records at "
+    text="Lean (model of n0dict._find / n0list._find with the fix patches C06-a, C06-c, C06-b, C06-e and C06-f applied), for the list of dict records at "
          "ANY position of a dict-rooted tree, every list length and every mix of present/absent fields. Canonical path P (keys "
          "and indexes, as xpath() prints it): C06_star (`P[*]/f` and the shorthand `P/f` return, through get, item access and "
          "first, exactly [r[f] for r in rs if f in r] in list order; the default / IndexError when that is empty; first unwraps a "
@@ -58,8 +58,17 @@ MANIFEST = dict(
          "true()/false()), no float value of k and a non-ASCII literal only against non-numeric k (model scope guard); for "
          "chained selections `items`, where an outer record has it, is a list of dict records (or one dict record). No statement "
          "is left open; positive examples for the four repaired findings (C06_numeric_example, C06_empty_literal_example, "
-         "C06_chained_example, C06_empty_inner_example). Differential only: index spellings with blanks inside the brackets, "
-         "list roots, a scalar `items` "
+         "C06_chained_example, C06_empty_inner_example). N0LIST-ROOTED trees (fix C06-f: n0list._find keeps itself as self of "
+         "the dict-side search, so that '..' - and with it every condition - resolves the found text from the root list and not "
+         "inside the element; a condition or a name applied to a list is handed to n0dict._find, which supplies the skipped [*]): "
+         "for the root list being the record list itself, C06_star_list_root (`[*]/f`, `/[*]/f` and the shorthand `/f`) and "
+         "C06_pred_list_root (`[k op v]/f`, `/[k op v]/f`, `k[text() op v]/../f`, `/k[text() op v]/../f`; every operator and "
+         "literal spelling) give the same comprehensions through get, item access and first (token level, both values of "
+         "return_lists: xa_star_list_root, xa_pred_list_root in Proofs/XPathAudit.lean, over the loop of n0list._find - "
+         "xa_findL_loop); the audit's witnesses, an indexed / starred / conditioned P in front of an inner predicate included, "
+         "are evaluated in C06_list_root_example. Differential only: index spellings with blanks inside the brackets, "
+         "a record list DEEPER in an n0list-rooted tree (P starting with an index: 15 % of the generated trees keep a list root, "
+         "all forms and chained selections, evaluator and model stream), a scalar `items` "
          "(the engine raises IndexError there, which aborts the whole fan-out - outside the property's quantifier, see notes). The "
          "model of the resolver is compared with the real code on all selecting forms and chained selections at depth 0-3 under "
          "random spellings of P (list elements at varying indexes), with string, int, bool, float and None fields, list-valued "
@@ -122,10 +131,16 @@ def gen_orders(rng, hidden=False):
     return recs
 
 
-def wrap_at_depth(rng, recs, depth):
-    """tree with the record list at path P (depth keys / indexes)"""
+LIST_ROOT = 0.15   # share of the trees that keep a list as their root (n0list-rooted: pos starts with an index, or is empty)
+
+
+def wrap_at_depth(rng, recs, depth, list_root=None):
+    """tree with the record list at path P (depth keys / indexes); the root is a dict, or (list_root) a list: the record
+    list itself (pos == []) or a list that holds it at some depth (pos starts with an index)"""
     pos = []
     node = recs
+    if list_root is None:
+        list_root = rng.random() < LIST_ROOT
     for _ in range(depth):
         if rng.random() < 0.7:
             k = rng.choice(["a", "b", "orders", "C"])
@@ -137,10 +152,21 @@ def wrap_at_depth(rng, recs, depth):
             before = rng.choice([0, 1, 1, 2])
             node = ["pad"] * before + [node] + ["tail"] * rng.choice([0, 0, 1, 2])
             pos.insert(0, before)
-    if not isinstance(node, dict):
+    if not isinstance(node, dict) and not list_root:
         node = {"root": node}
         pos.insert(0, "root")
+    elif isinstance(node, dict) and list_root:
+        before = rng.choice([0, 1, 1, 2])
+        node = ["pad"] * before + [node] + ["tail"] * rng.choice([0, 0, 1, 2])
+        pos.insert(0, before)
     return node, pos
+
+
+def spell_P(rng, tree, pos, spelled):
+    """the text of P: canonical relative spelling or a random one; the root itself (a record list that is the root) is ''"""
+    if not pos:
+        return rng.choice(["", "", "/", "//"]) if spelled else ""
+    return X.render(rng, tree, pos) if spelled else X.render_rel(tree, pos)
 
 
 def lit(rng, v, quoted):
@@ -413,7 +439,7 @@ def run(ctx):
         numeric = rng.random() < 0.25
         recs = gen_records(rng, numeric=numeric)
         tree, pos = wrap_at_depth(rng, recs, rng.choice([0, 1, 2, 3]))
-        P = X.render(rng, tree, pos) if rng.random() < 0.5 else X.render_rel(tree, pos)
+        P = spell_P(rng, tree, pos, rng.random() < 0.5)
         form = rng.choice(["star", "implicit", "eq", "eq", "text", "ne", "contains"])
         k, f = rng.choice(FIELDS), rng.choice(FIELDS)
         occurring = [r[k] for r in recs if k in r]
@@ -430,7 +456,7 @@ def run(ctx):
     for _ in range(ctx.budget(400, 8000)):
         recs = gen_orders(rng, hidden=rng.random() < 0.5) if rng.random() < 0.65 else gen_records(rng, nested=True, numeric=rng.random() < 0.2)
         tree, pos = wrap_at_depth(rng, recs, rng.choice([0, 1, 2, 3]))
-        P = X.render_rel(tree, pos) if rng.random() < 0.5 else X.render(rng, tree, pos)
+        P = spell_P(rng, tree, pos, rng.random() >= 0.5)
         k1 = "id" if rng.random() < 0.6 else rng.choice(FIELDS)
         ids = [r[k1] for r in recs if k1 in r and "items" in r]
         v1 = rng.choice(ids) if ids and rng.random() < 0.8 else rng.choice(SVALS)
@@ -493,9 +519,16 @@ def run(ctx):
     forms = {}
     for c in cases:
         forms[c["form"]] = forms.get(c["form"], 0) + 1
+    ctx.extra["list_roots"] = {
+        "select_root_is_the_record_list": sum(1 for c in cases if not c["pos"]),
+        "select_list_root_deeper": sum(1 for c in cases if c["pos"] and isinstance(c["tree"], list)),
+        "chained_root_is_the_record_list": sum(1 for c in chained if not c["pos"]),
+        "chained_list_root_deeper": sum(1 for c in chained if c["pos"] and isinstance(c["tree"], list)),
+        "chained_list_root_selecting": sum(1 for c in chained if isinstance(c["tree"], list) and sel_recs(c)),
+    }
     ctx.extra["forms"] = forms
     ctx.extra["assumptions"] = [
         "record fields are plain names; literals are taken from / absent from the data",
-        "theorems: the record list at any position of a dict-rooted tree, every spelling of its path (prefix, ][ vs ]/[, index as i, -k, last(), last()-k, i+j), chained selections with `items` a list of dict records or one dict record, first() on them; index texts with blanks, list roots and scalar `items` are covered by B and C only",
-        "the implementation under test carries the fix patches C06-a, C06-c, C06-b and C06-e",
+        "theorems: the record list at any position of a dict-rooted tree, every spelling of its path (prefix, ][ vs ]/[, index as i, -k, last(), last()-k, i+j), chained selections with `items` a list of dict records or one dict record, first() on them; an n0list root that is the record list itself; index texts with blanks, record lists deeper in a list-rooted tree and scalar `items` are covered by B and C only",
+        "the implementation under test carries the fix patches C06-a, C06-c, C06-b, C06-e and C06-f",
     ]
